@@ -46,6 +46,9 @@ class Exact:
         self.counter += 1
         return sp.Symbol(f"{base}_{self.counter}", real=True) > 0
 
+    def opaque_float(self, base):
+        return self.fresh(base)
+
     def is_float(self, v):
         return isinstance(v, sp.Expr)
 
@@ -162,70 +165,96 @@ U = z3.RealVal(1) / z3.RealVal(2 ** 53)
 
 
 class RV:
-    """A float value in the Round domain: z3 real term, or opaque (data-derived)."""
+    """A float value in the Round domain: z3 real term, or opaque (data-derived).
+    lo/hi: constant bounds known structurally (Fractions or None)."""
 
-    __slots__ = ("t", "opaque", "exact_const")
+    __slots__ = ("t", "opaque", "exact_const", "lo", "hi")
 
-    def __init__(self, t, opaque=False, exact_const=None):
+    def __init__(self, t, opaque=False, exact_const=None, lo=None, hi=None):
         self.t = t
         self.opaque = opaque
         self.exact_const = exact_const  # Fraction if this is a literal/const value
+        self.lo = exact_const if exact_const is not None else lo
+        self.hi = exact_const if exact_const is not None else hi
 
     def __repr__(self):
         return f"RV({'?' if self.opaque else self.t})"
 
 
+def _q(q):
+    q = Fraction(q)
+    return z3.RealVal(q.numerator) / z3.RealVal(q.denominator) if q.denominator != 1 else z3.RealVal(q.numerator)
+
+
+def _abs(t):
+    return z3.If(t >= 0, t, -t)
+
+
 class Round:
-    """One relative-error variable per float operation. `exact_ops`: operations whose result is
-    exact in binary64 and therefore carries no error (negation, abs, min, max, signum, and
-    multiplication by +-1 / 0)."""
+    """Reals with the standard model of binary64 rounding: the result r of a float operation with
+    exact value e satisfies |r - e| <= U*|e| (U = 2^-53; normal range, no NaN). Operations that
+    are exact in binary64 carry no error (negation, abs, min, max, signum, scaling by a power of
+    two). Products/quotients of two non-constant values are linearised with the structurally
+    known constant bounds of one factor (sound over-approximation); if no bounds are known the
+    exact nonlinear constraint is kept (`nonlinear` counts those)."""
 
     name = "round"
 
-    def __init__(self, rounding=True):
+    def __init__(self, rounding=True, feas_timeout_ms=4000):
         self.rounding = rounding
         self.solver = z3.Solver()
-        self.solver.set("timeout", 20000)
+        self.feas_timeout_ms = feas_timeout_ms
         self.n = 0
-        self.side = []       # definitional constraints (always asserted)
+        self.side = []
         self.queries = 0
         self.solver_s = 0.0
-        self.powf_f = z3.Function("powf", z3.RealSort(), z3.RealSort(), z3.RealSort())
-        self.sqrt_f = z3.Function("sqrt", z3.RealSort(), z3.RealSort())
         self.n_ops = 0
-
-    def push(self):
-        self.solver.push()
-
-    def pop(self):
-        self.solver.pop()
+        self.nonlinear = 0
+        self.free_bools = set()
+        self.globals_ = []
+        self.defs = {}
+        self.path = []
+        self.rounded = []
+        self.float_names = set()
 
     # -- construction
     def const(self, q):
         q = Fraction(q)
-        return RV(z3.RealVal(q.numerator) / z3.RealVal(q.denominator) if q.denominator != 1 else z3.RealVal(q.numerator), exact_const=q)
+        return RV(_q(q), exact_const=q)
 
     def inf(self):
-        # +infinity as a very large number is NOT sound; callers that need it fork on Option instead
         v = self.fresh("inf")
-        self.add(v.t >= z3.RealVal(2) ** 1000)
+        self.add(v.t >= z3.RealVal(2) ** 1000, defines=v)
         return v
 
     def fresh(self, base, opaque=False):
         self.n += 1
-        return RV(z3.Real(f"{base}!{self.n}"), opaque=opaque)
+        nm = f"{base}!{self.n}"
+        self.float_names.add(nm)
+        return RV(z3.Real(nm), opaque=opaque)
 
     def sym(self, name):
+        self.float_names.add(name)
         return RV(z3.Real(name))
 
     def opaque(self, base="data"):
         return self.fresh(base, opaque=True)
 
+    def opaque_float(self, base):
+        return self.fresh(base, opaque=True)
+
     def fresh_bool(self, base):
         self.n += 1
-        return z3.Bool(f"{base}!{self.n}")
+        b = z3.Bool(f"{base}!{self.n}")
+        self.free_bools.add(b.get_id())
+        return b
 
-    def add(self, c):
+    def add(self, c, defines=None):
+        """defines: the fresh value this constraint introduces (definitional); None = global assumption."""
+        if defines is None:
+            self.globals_.append(c)
+        else:
+            self.defs.setdefault(str(defines.t), []).append(c)
         self.side.append(c)
         self.solver.add(c)
 
@@ -237,97 +266,248 @@ class Round:
             return v.exact_const
         return None
 
+    # -- sliced obligation check: only the definitions the fact and the path conditions depend on
+    def check_sliced(self, negated_fact, timeout_ms=20000):
+        """Two stages: without the monotone-rounding axioms first (they only strengthen the
+        context, so `unsat` is already conclusive), with them if that is not enough."""
+        r = self._check_sliced(negated_fact, min(timeout_ms, 5000), axioms=False)
+        if r == z3.unsat:
+            return r
+        return self._check_sliced(negated_fact, timeout_ms, axioms=True)
+
+    def _check_sliced(self, negated_fact, timeout_ms, axioms):
+        import time
+        t0 = time.time()
+        need = set()
+        todo = []
+
+        def vars_of(e, acc):
+            stack = [e]
+            seen = set()
+            while stack:
+                x = stack.pop()
+                if x.get_id() in seen:
+                    continue
+                seen.add(x.get_id())
+                if z3.is_const(x) and x.decl().kind() == z3.Z3_OP_UNINTERPRETED:
+                    acc.add(str(x))
+                else:
+                    stack.extend(x.children())
+
+        roots = [negated_fact] + self.path + self.globals_
+        for r in roots:
+            acc = set()
+            vars_of(r, acc)
+            todo.extend(acc)
+        cons = []
+        while todo:
+            v = todo.pop()
+            if v in need:
+                continue
+            need.add(v)
+            for c in self.defs.get(v, ()):
+                cons.append(c)
+                acc = set()
+                vars_of(c, acc)
+                todo.extend(a for a in acc if a not in need)
+        s = z3.Solver()
+        s.set("timeout", timeout_ms)
+        for c in self.globals_ + self.path + cons:
+            s.add(c)
+        # rounding to nearest is monotone, and the identity on binary64 values: for the rounded
+        # operations in the cone, e1 <= e2 => fl(e1) <= fl(e2), and for every program value w
+        # (a binary64 number) e <= w => fl(e) <= w, e >= w => fl(e) >= w.
+        rs = [(r, e) for (r, e) in self.rounded if str(r) in need] if axioms else []
+        ws = [z3.Real(v) for v in need if not v.startswith(("cmp!", "icmp!", "lh_xout_is", "flag")) and v in self.float_names]
+        for i, (r1, e1) in enumerate(rs):
+            for (r2, e2) in rs[i + 1:]:
+                s.add(z3.Implies(e1 <= e2, r1 <= r2))
+                s.add(z3.Implies(e2 <= e1, r2 <= r1))
+            for w in ws:
+                if str(w) == str(r1):
+                    continue
+                s.add(z3.Implies(e1 <= w, r1 <= w))
+                s.add(z3.Implies(e1 >= w, r1 >= w))
+        s.add(negated_fact)
+        r = s.check()
+        self.queries += 1
+        self.solver_s += time.time() - t0
+        self.last_sliced = s
+        return r
+
     # -- rounding
-    def rnd(self, exact_term, name="r"):
+    def rnd(self, e, name="r", lo=None, hi=None):
+        """r = fl(e): |r - e| <= U*|e|."""
         if not self.rounding:
-            return RV(exact_term)
+            return RV(e, lo=lo, hi=hi)
         self.n_ops += 1
         r = self.fresh(name)
-        dlt = self.fresh("d")
-        self.add(z3.And(dlt.t >= -U, dlt.t <= U))
-        self.add(r.t == exact_term * (1 + dlt.t))
+        u = _q(Fraction(1, 2 ** 53))
+        ae = _abs(e)
+        self.add(z3.And(r.t - e <= u * ae, e - r.t <= u * ae), defines=r)
+        self.rounded.append((r.t, e))
+        r.lo, r.hi = _widen(lo, hi)
+        return r
+
+    def _between(self, name, lo_t, hi_t, lo=None, hi=None):
+        """fresh r with lo_t*(1-+U) <= r <= hi_t*(1+-U) (rounded value of something in [lo_t, hi_t])."""
+        self.n_ops += 1
+        r = self.fresh(name)
+        u = _q(Fraction(1, 2 ** 53))
+        self.add(z3.And(r.t >= lo_t - u * _abs(lo_t), r.t <= hi_t + u * _abs(hi_t)), defines=r)
+        r.lo, r.hi = _widen(lo, hi)
         return r
 
     def arith(self, op, a, b):
         if a.opaque or b.opaque:
             return self.opaque()
         if a.exact_const is not None and b.exact_const is not None:
-            # constant folding as rustc/LLVM would do it in binary64
             x, y = float(a.exact_const), float(b.exact_const)
             try:
                 v = {"+": x + y, "-": x - y, "*": x * y, "/": x / y}[op]
                 return self.const(Fraction(v))
-            except ZeroDivisionError:
+            except (ZeroDivisionError, OverflowError, ValueError):
                 return self.opaque("div0")
+        if op in ("+", "-"):
+            e = a.t + b.t if op == "+" else a.t - b.t
+            lo = hi = None
+            if op == "+":
+                lo = a.lo + b.lo if a.lo is not None and b.lo is not None else None
+                hi = a.hi + b.hi if a.hi is not None and b.hi is not None else None
+            else:
+                lo = a.lo - b.hi if a.lo is not None and b.hi is not None else None
+                hi = a.hi - b.lo if a.hi is not None and b.lo is not None else None
+            return self.rnd(e, "add" if op == "+" else "sub", lo, hi)
         if op == "*":
             for p, q in ((a, b), (b, a)):
-                if p.exact_const is not None and abs(p.exact_const) in (0, 1) :
-                    return RV(p.t * q.t)
-                if p.exact_const is not None and _is_pow2(p.exact_const):
-                    return RV(p.t * q.t)  # scaling by a power of two is exact (normal range)
-        if op == "/" and b.exact_const is not None and _is_pow2(b.exact_const):
-            return RV(a.t / b.t)
-        ex = {"+": a.t + b.t, "-": a.t - b.t, "*": a.t * b.t, "/": a.t / b.t}[op]
-        return self.rnd(ex, {"+": "add", "-": "sub", "*": "mul", "/": "div"}[op])
+                if p.exact_const is not None:
+                    c = p.exact_const
+                    lo, hi = _scale_bounds(q, c)
+                    if abs(c) in (0, 1) or _is_pow2(c):
+                        return RV(p.t * q.t, lo=lo, hi=hi)
+                    return self.rnd(p.t * q.t, "mulc", lo, hi)
+            for p, q in ((a, b), (b, a)):
+                if p.lo is not None and p.hi is not None and p.lo >= 0:
+                    # a factor that is at most 1 structurally: ask the solver whether it is in fact <= 19/20
+                    # on this path (step-shrinking factors), to keep the linearisation tight enough
+                    if Fraction(19, 20) < p.hi <= Fraction(1) + Fraction(1, 2 ** 40):
+                        if self.check([p.t > _q(Fraction(19, 20))], fast=True) == z3.unsat:
+                            p.hi = Fraction(19, 20)
+                    # q * [lo,hi]
+                    lo_t = z3.If(q.t >= 0, q.t * _q(p.lo), q.t * _q(p.hi))
+                    hi_t = z3.If(q.t >= 0, q.t * _q(p.hi), q.t * _q(p.lo))
+                    self.add(z3.And(p.t >= _q(p.lo), p.t <= _q(p.hi)), defines=p)
+                    return self._between("mulb", lo_t, hi_t)
+            self.nonlinear += 1
+            return self.rnd(a.t * b.t, "mul")
+        if op == "/":
+            if b.exact_const is not None:
+                c = b.exact_const
+                if c == 0:
+                    return self.opaque("div0")
+                lo, hi = _scale_bounds(a, 1 / c)
+                if _is_pow2(c):
+                    return RV(a.t / b.t, lo=lo, hi=hi)
+                return self.rnd(a.t / b.t, "divc", lo, hi)
+            if b.lo is not None and b.hi is not None and b.lo > 0:
+                lo_t = z3.If(a.t >= 0, a.t / _q(b.hi), a.t / _q(b.lo))
+                hi_t = z3.If(a.t >= 0, a.t / _q(b.lo), a.t / _q(b.hi))
+                self.add(z3.And(b.t >= _q(b.lo), b.t <= _q(b.hi)), defines=b)
+                lo = hi = None
+                if a.lo is not None and a.lo >= 0:
+                    lo = a.lo / b.hi
+                if a.hi is not None and a.hi >= 0 and a.lo is not None and a.lo >= 0:
+                    hi = a.hi / b.lo
+                return self._between("divb", lo_t, hi_t, lo, hi)
+            lb = self._solver_lower_bound(b)
+            if lb is not None:
+                # b >= lb > 0 on this path (decided by the solver): a/b lies between 0 and a/lb
+                zero = z3.RealVal(0)
+                lo_t = z3.If(a.t >= 0, zero, a.t / _q(lb))
+                hi_t = z3.If(a.t >= 0, a.t / _q(lb), zero)
+                r = self._between("divs", lo_t, hi_t)
+                # sign is preserved exactly (no underflow in the normal range)
+                self.add(z3.And(z3.Implies(a.t > 0, r.t > 0), z3.Implies(a.t < 0, r.t < 0), z3.Implies(a.t == 0, r.t == 0)), defines=r)
+                return r
+            self.nonlinear += 1
+            r = self.fresh("div")
+            u = _q(Fraction(1, 2 ** 53))
+            # r = (a/b)(1+d)  <=>  |r*b - a| <= U*|a|   (b != 0)
+            self.add(z3.Implies(b.t != 0, z3.And(r.t * b.t - a.t <= u * _abs(a.t), a.t - r.t * b.t <= u * _abs(a.t))), defines=r)
+            return r
+        raise ValueError(op)
+
+    def _solver_lower_bound(self, b):
+        for c in (Fraction(11, 10), Fraction(1), Fraction(1, 10), Fraction(1, 2 ** 40)):
+            if self.check([b.t < _q(c)], fast=True) == z3.unsat:
+                return c
+        return None
 
     def neg(self, a):
         if a.opaque:
             return self.opaque()
         if a.exact_const is not None:
             return self.const(-a.exact_const)
-        return RV(-a.t)
+        return RV(-a.t, lo=None if a.hi is None else -a.hi, hi=None if a.lo is None else -a.lo)
 
     def fabs(self, a):
         if a.opaque:
             v = self.opaque("abs")
-            self.add(v.t >= 0)
-            v.opaque = True
+            self.add(v.t >= 0, defines=v)
             return v
         if a.exact_const is not None:
             return self.const(abs(a.exact_const))
-        return RV(z3.If(a.t >= 0, a.t, -a.t))
+        lo, hi = Fraction(0), None
+        if a.lo is not None and a.hi is not None:
+            hi = max(abs(a.lo), abs(a.hi))
+            if a.lo >= 0:
+                lo = a.lo
+        return RV(_abs(a.t), lo=lo, hi=hi)
 
     def fmax(self, a, b):
+        if a.opaque and b.opaque:
+            return self.opaque("max")
         if a.opaque or b.opaque:
-            v = self.opaque("max")
-            for p in (a, b):
-                if not p.opaque:
-                    self.add(v.t >= p.t)
+            p = b if a.opaque else a
+            v = self.fresh("max")
+            self.add(v.t >= p.t, defines=v)
+            v.lo = p.lo
             return v
         if a.exact_const is not None and b.exact_const is not None:
             return self.const(max(a.exact_const, b.exact_const))
-        return RV(z3.If(a.t >= b.t, a.t, b.t))
+        lo = max([x for x in (a.lo, b.lo) if x is not None], default=None)
+        hi = max(a.hi, b.hi) if a.hi is not None and b.hi is not None else None
+        return RV(z3.If(a.t >= b.t, a.t, b.t), lo=lo, hi=hi)
 
     def fmin(self, a, b):
+        if a.opaque and b.opaque:
+            return self.opaque("min")
         if a.opaque or b.opaque:
-            v = self.opaque("min")
-            for p in (a, b):
-                if not p.opaque:
-                    self.add(v.t <= p.t)
+            p = b if a.opaque else a
+            v = self.fresh("min")
+            self.add(v.t <= p.t, defines=v)
+            v.hi = p.hi
             return v
         if a.exact_const is not None and b.exact_const is not None:
             return self.const(min(a.exact_const, b.exact_const))
-        return RV(z3.If(a.t <= b.t, a.t, b.t))
+        hi = min([x for x in (a.hi, b.hi) if x is not None], default=None)
+        lo = min(a.lo, b.lo) if a.lo is not None and b.lo is not None else None
+        return RV(z3.If(a.t <= b.t, a.t, b.t), lo=lo, hi=hi)
 
     def sqrt(self, a):
-        if a.exact_const is not None:
+        if a.exact_const is not None and a.exact_const >= 0:
             import math
             return self.const(Fraction(math.sqrt(float(a.exact_const))))
-        v = self.opaque("sqrt") if a.opaque else self.fresh("sqrt")
-        self.add(v.t >= 0)
-        if not a.opaque:
-            # correctly rounded square root: v = sqrt(a)(1+d)
-            s = self.fresh("sq")
-            self.add(z3.And(s.t >= 0, s.t * s.t == a.t))
-            r = self.rnd(s.t, "sqrt")
-            return r
+        v = self.opaque("sqrt")
+        self.add(v.t >= 0, defines=v)
+        v.lo = Fraction(0)
         return v
 
     def powi(self, a, k):
         if a.opaque:
             v = self.opaque("powi")
             if k % 2 == 0:
-                self.add(v.t >= 0)
+                self.add(v.t >= 0, defines=v)
             return v
         r = a
         for _ in range(int(k) - 1):
@@ -336,7 +516,7 @@ class Round:
 
     def powf(self, a, e):
         """Contract model (same as the Kani stub): result >= 0; base >1/<1 and sign of the
-        exponent bound the result by 1; no monotonicity."""
+        exponent bound the result by 1; no monotonicity. The result is a *tracked* value."""
         if a.exact_const is not None and e.exact_const is not None:
             import math
             try:
@@ -344,29 +524,36 @@ class Round:
             except (OverflowError, ValueError, ZeroDivisionError):
                 pass
         v = self.fresh("powf")
-        v.opaque = False
-        self.add(v.t >= 0)
-        if not a.opaque and not e.opaque:
-            at, et = a.t, e.t
-            self.add(z3.Implies(z3.And(at > 1, et < 0), v.t <= 1))
-            self.add(z3.Implies(z3.And(at > 1, et > 0), v.t >= 1))
-            self.add(z3.Implies(z3.And(at < 1, at > 0, et > 0), v.t <= 1))
-            self.add(z3.Implies(z3.And(at < 1, at > 0, et < 0), v.t >= 1))
-            self.add(z3.Implies(z3.Or(at == 1, et == 0), v.t == 1))
-        elif not e.opaque and a.opaque:
-            # base unknown (data-derived): only non-negativity
-            pass
+        self.add(v.t >= 0, defines=v)
+        v.lo = Fraction(0)
+        if e.exact_const is not None:
+            ec = e.exact_const
+            if ec == 0:
+                return self.const(1)
+            at = a.t
+            if ec < 0:
+                self.add(z3.Implies(at > 1, v.t <= 1), defines=v)
+                self.add(z3.Implies(z3.And(at < 1, at > 0), v.t >= 1), defines=v)
+            else:
+                self.add(z3.Implies(at > 1, v.t >= 1), defines=v)
+                self.add(z3.Implies(z3.And(at < 1, at >= 0), v.t <= 1), defines=v)
+            self.add(z3.Implies(at == 1, v.t == 1), defines=v)
         return v
 
     def signum(self, a):
-        if a.opaque:
-            v = self.opaque("sgn")
-            self.add(z3.Or(v.t == 1, v.t == -1))
-            v.opaque = False
-            return v
         if a.exact_const is not None:
             return self.const(1 if a.exact_const >= 0 else -1)
-        return RV(z3.If(a.t >= 0, z3.RealVal(1), z3.RealVal(-1)))
+        if a.opaque:
+            v = self.fresh("sgn")
+            self.add(z3.Or(v.t == 1, v.t == -1), defines=v)
+            return v
+        pos = self.check([a.t >= 0], fast=True) != z3.unsat
+        neg = self.check([a.t < 0], fast=True) != z3.unsat
+        if pos and not neg:
+            return self.const(1)
+        if neg and not pos:
+            return self.const(-1)
+        return RV(z3.If(a.t >= 0, z3.RealVal(1), z3.RealVal(-1)), lo=Fraction(-1), hi=Fraction(1))
 
     def round(self, a):
         raise NotImplementedError("round()")
@@ -379,8 +566,6 @@ class Round:
 
     # -- comparisons
     def cmp(self, op, a, b):
-        if a.opaque or b.opaque:
-            return self.fresh_bool("cmp")
         if a.exact_const is not None and b.exact_const is not None:
             x, y = a.exact_const, b.exact_const
             return {"==": x == y, "!=": x != y, "<": x < y, ">": x > y, "<=": x <= y, ">=": x >= y}[op]
@@ -404,21 +589,46 @@ class Round:
             return False
         return None
 
-    def check(self, extra=()):
+    def check(self, extra=(), fast=False, timeout_ms=60000):
         import time
         t0 = time.time()
         self.queries += 1
+        self.solver.set("timeout", self.feas_timeout_ms if fast else timeout_ms)
         r = self.solver.check(*extra)
         self.solver_s += time.time() - t0
         return r
 
     def feasible(self, cond, value):
+        if z3.is_const(cond) and cond.get_id() in self.free_bools:
+            self.free_bools.discard(cond.get_id())
+            return True
         c = cond if value else z3.Not(cond)
-        r = self.check([c])
+        r = self.check([c], fast=True)
         return r != z3.unsat  # unknown counts as feasible (over-approximation)
 
     def assume(self, cond, value):
-        self.solver.add(cond if value else z3.Not(cond))
+        c = cond if value else z3.Not(cond)
+        self.path.append(c)
+        self.solver.add(c)
+
+
+def _widen(lo, hi):
+    """Constant bounds of a rounded value: widen by one relative unit."""
+    w = Fraction(1, 2 ** 52)
+    if lo is not None:
+        lo = lo * (1 - w) if lo >= 0 else lo * (1 + w)
+    if hi is not None:
+        hi = hi * (1 + w) if hi >= 0 else hi * (1 - w)
+    return lo, hi
+
+
+def _scale_bounds(q, c):
+    if q.lo is None or q.hi is None:
+        if c >= 0:
+            return (None if q.lo is None else q.lo * c), (None if q.hi is None else q.hi * c)
+        return (None if q.hi is None else q.hi * c), (None if q.lo is None else q.lo * c)
+    x, y = q.lo * c, q.hi * c
+    return min(x, y), max(x, y)
 
 
 def _is_pow2(q):
